@@ -100,6 +100,8 @@ func (e *Engine) intrinsic(fr *Frame, st *State, ins ssa.Instruction, fn *ssa.Fu
 			if !ok {
 				if p, isP := a.(*PtrVal); isP {
 					t = e.ptrTerm(p)
+				} else if f, isF := a.(*FuncVal); isF {
+					t = e.fnTerm(f)
 				} else {
 					unsupported("uninterpreted function %s: argument is not a term", name)
 				}
@@ -152,6 +154,20 @@ func (e *Engine) intrinsic(fr *Frame, st *State, ins ssa.Instruction, fn *ssa.Fu
 			return tb.Eq(e.sBase(args[0].(*Term)), e.sBase(args[1].(*Term))), true
 		case "sameSlice":
 			return tb.Eq(args[0].(*Term), args[1].(*Term)), true
+		case "sameFunc":
+			// identity of two function values (Go has no == on them)
+			var ts []*Term
+			for _, a := range args[:2] {
+				switch x := a.(type) {
+				case *Term:
+					ts = append(ts, x)
+				case *FuncVal:
+					ts = append(ts, e.fnTerm(x))
+				default:
+					unsupported("sameFunc: argument is not a function value")
+				}
+			}
+			return tb.Eq(ts[0], ts[1]), true
 		case "offOf":
 			return e.sOff(args[0].(*Term)), true
 		case "strViewOf":
